@@ -73,11 +73,182 @@ def runModel (cfg : Cfg) (bytes : List Nat) : String :=
       res ++ s!" queue={s.queue.length} forks=[" ++ ";".intercalate forks ++ s!"] nstates={s.stored.length}" ++
         String.join ((enumFrom 0 s.stored).map (fun (i, t) => s!" || S{i} " ++ dumpThread t))
 
+/-! #### Oracles on the implementation's dump -/
+
+structure Dump where
+  ok : Bool
+  errs : List (Nat × String)
+  queue : Nat
+  forks : List (Nat × Nat)
+  nstates : Nat
+  vis : List (List Nat)          -- per stored state
+  raw : String
+
+def between (s openS closeS : String) : Option String :=
+  match s.splitOn openS with
+  | _ :: rest :: _ => (rest.splitOn closeS).head?
+  | _ => none
+
+def parsePairs (s sep : String) : List (Nat × String) :=
+  ((s.splitOn ";").filter (· ≠ "")).filterMap (fun p => match p.splitOn sep with
+    | [a, b] => a.toNat?.map (fun a => (a, b))
+    | _ => none)
+
+def parseDump (impl : String) : Option Dump :=
+  if !(impl.startsWith "res=") then none else
+  let head := (impl.splitOn " || ").headD ""
+  let states := (impl.splitOn " || ").drop 1
+  match between head "errs=[" "]", between head "queue=" " ", between head "forks=[" "]", between (head ++ " ") "nstates=" " " with
+  | some errs, some q, some forks, some ns =>
+    some { ok := impl.startsWith "res=ok",
+           errs := parsePairs errs ":",
+           queue := q.toNat!,
+           forks := (parsePairs forks ":").map (fun (a, b) => (a, b.toNat!)),
+           nstates := ns.toNat!,
+           vis := states.map (fun st => match between st "vis=[" "]" with
+             | some v => ((v.splitOn ",").filter (· ≠ "")).map String.toNat!
+             | none => []),
+           raw := impl }
+  | _, _, _, _ => none
+
+def isJumpKindName (n : String) : Bool :=
+  n == "InvalidOffsetForJump" || n == "InvalidJumpTarget" || n == "NonExistentJumpTarget" ||
+  n == "NoConcreteJumpDestination"
+
+/-- C03 on the implementation's own counters. -/
+def oracleC03 (cfg : Cfg) (bytes : List Nat) (d : Dump) : List String :=
+  let mask := pushDataMask bytes
+  let jd := ((bytes.zip mask).filter (fun (b, m) => b == 0x5b && !m)).length
+  let visMax := (d.vis.map (fun v => v.foldl max 0)).foldl max 0
+  let forkMax := (d.forks.map (·.2)).foldl max 0
+  (if visMax > cfg.iterLimit then [s!"C03-visit:{visMax}>{cfg.iterLimit}"] else []) ++
+  (if forkMax > cfg.forkLimit then [s!"C03-fork:{forkMax}>{cfg.forkLimit}"] else []) ++
+  (if d.nstates > 1 + cfg.forkLimit * jd then [s!"C03-threads:{d.nstates}>1+{cfg.forkLimit}*{jd}"] else []) ++
+  (if d.queue ≠ 0 then ["C03-queue-not-drained"] else [])
+
+/-- C17 (single run): errors are located inside the code; strict mode with errors fails. -/
+def oracleC17single (bytes : List Nat) (d : Dump) : List String :=
+  (if d.errs.any (fun (l, _) => l ≥ bytes.length) then ["C17-location-outside-code"] else []) ++
+  (if d.ok && !d.errs.isEmpty then ["C17-ok-with-errors"] else []) ++
+  (if !d.ok && d.errs.isEmpty then ["C17-err-without-errors"] else [])
+
+/-! static control-flow graph of the *EVM* for code whose jump targets are pushed immediately
+before the jump (anything else is over-approximated by "any JUMPDEST") -/
+
+def haltsByte (b : Nat) : Bool :=
+  b == 0x00 || b == 0xf3 || b == 0xfd || b == 0xff || b == 0xfe || (!isKnown b && !isPush b)
+
+/-- value pushed by the instruction that ends right before offset `i`, if it is a PUSH -/
+def pushedBefore (bytes : List Nat) (mask : List Bool) (i : Nat) : Option Nat :=
+  -- walk back over push data
+  let rec back (fuel j : Nat) : Option Nat :=
+    match fuel with
+    | 0 => none
+    | fuel + 1 =>
+      if j = 0 then none else
+      let k := j - 1
+      if mask.getD k false then back fuel k
+      else
+        let b := bytes.getD k 0
+        if b == 0x5f && k + 1 = i then some 0
+        else if isPush b && k + 1 + (b - 0x5f) = i then
+          some ((bytes.drop (k + 1)).take (b - 0x5f) |>.foldl (fun acc x => acc * 256 + x) 0)
+        else none
+  back 40 i
+
+def validDest (bytes : List Nat) (mask : List Bool) (t : Nat) : Bool :=
+  bytes.getD t 0 == 0x5b && t < bytes.length && !(mask.getD t true)
+
+def succs (bytes : List Nat) (mask : List Bool) (i : Nat) : List Nat × Bool :=
+  let b := bytes.getD i 0
+  let fall := if isPush b then i + 1 + (b - 0x5f) else i + 1
+  let allDests := (List.range bytes.length).filter (validDest bytes mask)
+  if haltsByte b then ([], true)
+  else if b == 0x56 then
+    (match pushedBefore bytes mask i with
+     | some t => (if validDest bytes mask t then [t] else [], true)
+     | none => (allDests, false))
+  else if b == 0x57 then
+    (match pushedBefore bytes mask i with
+     | some t => ((if validDest bytes mask t then [t] else []) ++ [fall], true)
+     | none => (allDests ++ [fall], false))
+  else ([fall], true)
+
+/-- reachable instruction offsets, and whether every jump target was statically known -/
+def reach (bytes : List Nat) : List Nat × Bool :=
+  let mask := pushDataMask bytes
+  let rec go (fuel : Nat) (work seen : List Nat) (exact : Bool) : List Nat × Bool :=
+    match fuel, work with
+    | 0, _ => (seen, false)
+    | _, [] => (seen, exact)
+    | fuel + 1, i :: rest =>
+      if i ≥ bytes.length || seen.contains i then go fuel rest seen exact
+      else
+        let (ss, ex) := succs bytes mask i
+        go fuel (ss ++ rest) (i :: seen) (exact && ex)
+  go (bytes.length * 4 + 16) [0] [] true
+
+def acyclic (bytes : List Nat) (nodes : List Nat) : Bool :=
+  -- loop-free iff every edge goes forward or a DFS finds no back edge; use the simple
+  -- sufficient test "every edge goes to a larger offset"
+  let mask := pushDataMask bytes
+  nodes.all (fun i => (succs bytes mask i).1.all (fun t => t > i))
+
+/-- C08: executed offsets ⊆ EVM-reachable offsets (JUMPDESTs and push-data placeholders
+dropped on both sides); equal for loop-free code within the limits. -/
+def oracleC08 (cfg : Cfg) (bytes : List Nat) (d : Dump) : List String :=
+  let mask := pushDataMask bytes
+  let (rs, exact) := reach bytes
+  let interesting := fun (i : Nat) => !(mask.getD i false) && bytes.getD i 0 != 0x5b
+  let executed := (List.range bytes.length).filter (fun i => interesting i && d.vis.any (fun v => v.getD i 0 > 0))
+  let reachable := (List.range bytes.length).filter (fun i => interesting i && rs.contains i)
+  let extra := executed.filter (fun i => !reachable.contains i)
+  let forkMax := (d.forks.map (·.2)).foldl max 0
+  let within := d.ok && exact && acyclic bytes rs && forkMax < cfg.forkLimit && cfg.iterLimit ≥ 1
+  let missing := if within then reachable.filter (fun i => !executed.contains i) else []
+  (if !extra.isEmpty then [s!"C08-executed-unreachable:offset {extra.head!}"] else []) ++
+  (if !missing.isEmpty then [s!"C08-reachable-not-executed:offset {missing.head!}"] else [])
+
+def verdictOf (segs : List String) : String := if segs.isEmpty then "ok" else "FAIL " ++ " ;; ".intercalate segs
+
 def handle (payload impl : String) : String × String :=
   match payload.splitOn " " with
   | [cfg, hex] =>
     match parseCfg cfg, hexBytes? hex with
-    | some cfg, some bytes => (runModel cfg bytes, if impl.startsWith "PANIC" then "FAIL panic:" ++ impl else "ok")
+    | some cfg, some bytes =>
+      let verdict :=
+        if impl.startsWith "PANIC" then "FAIL C01-panic:" ++ impl
+        else match parseDump impl with
+          | none => if impl.startsWith "disasm-err" || impl.startsWith "vm-new-err" then "ok" else "FAIL unparsable-impl-answer"
+          | some d => verdictOf (oracleC03 cfg bytes d ++ oracleC17single bytes d ++ oracleC08 cfg bytes d)
+      (runModel cfg bytes, verdict)
+    | _, _ => ("bad-request", "ok")
+  | _ => ("bad-request", "ok")
+
+/-- family `vm2`: strict and permissive runs of one program. -/
+def handle2 (payload impl : String) : String × String :=
+  match payload.splitOn " " with
+  | [cfg, hex] =>
+    match parseCfg cfg, hexBytes? hex with
+    | some cfg, some bytes =>
+      let model := runModel { cfg with permissive := false } bytes ++ " ### " ++ runModel { cfg with permissive := true } bytes
+      let verdict :=
+        if impl.contains "PANIC" then "FAIL C01-panic"
+        else match impl.splitOn " ### " with
+          | [s, p] =>
+            (match parseDump s, parseDump p with
+             | some ds, some dp =>
+               let statesOf := fun (x : String) => " || ".intercalate ((x.splitOn " || ").drop 1)
+               let expectedPermErrs := ds.errs.filter (fun (_, n) => !isJumpKindName n)
+               verdictOf (
+                 (if statesOf s ≠ statesOf p then ["C17-modes-explore-differently"] else []) ++
+                 (if dp.errs ≠ expectedPermErrs then ["C17-permissive-errors:expected strict errors minus jump kinds"] else []) ++
+                 (if ds.ok && !(dp.ok) then ["C17-strict-ok-permissive-fails"] else []) ++
+                 (if dp.ok ≠ expectedPermErrs.isEmpty then ["C17-permissive-result-class"] else []) ++
+                 oracleC17single bytes ds ++ oracleC17single bytes dp)
+             | _, _ => if s.startsWith "disasm-err" then "ok" else "FAIL unparsable-impl-answer")
+          | _ => "FAIL unparsable-impl-answer"
+      (model, verdict)
     | _, _ => ("bad-request", "ok")
   | _ => ("bad-request", "ok")
 
